@@ -129,7 +129,7 @@ Record m10 := mkM10 {
   a_shutcall : bool;
   a_ustop : option bool;      (* a user stop RETURNED nil: Some true = it acted on a live run, Some false = on a dead one *)
   a_shut : option bool;       (* StopAll returned: Some true = a run was live at the call *)
-  a_calls : list (nat * bool);        (* call id -> was a source open when the call was issued *)
+  a_calls : list (nat * (bool * bool)); (* call id -> (it found a live run, the status was Recovering) when issued *)
   a_attempts : list Z;        (* attempt times (UpdateStatus(Recovering) returned) of restarts that happened *)
   a_lastrec : option Z;
   a_v : N }.
@@ -142,8 +142,8 @@ Definition a_flag (c : bool) (b : N) (s : m10) : m10 :=
                   (N.lor (a_v s) b)
   else s.
 
-Fixpoint lookup_b (id : nat) (l : list (nat * bool)) : bool :=
-  match l with [] => false | (j, x) :: t => if Nat.eqb j id then x else lookup_b id t end.
+Fixpoint lookup_b (id : nat) (l : list (nat * (bool * bool))) : bool * bool :=
+  match l with [] => (false, false) | (j, x) :: t => if Nat.eqb j id then x else lookup_b id t end.
 
 Definition count_after (t : Z) (l : list Z) : Z := Z.of_nat (length (filter (fun x => t <? x) l)).
 
@@ -156,7 +156,8 @@ Definition kind_bit (c : pcause) : N :=
 Definition is_stopkind (k : ckind) : bool :=
   match k with KStop | KStopWait => true | _ => false end.
 
-Definition mon10_step (cf : lcfg) (s : m10) (e : lev) : m10 :=
+(* cur: the stored status before this event *)
+Definition mon10_step (cf : lcfg) (cur : status) (s : m10) (e : lev) : m10 :=
   match e with
   | EvOpen t KSrc =>
       let auto := negb (a_ustart s) in
@@ -205,8 +206,11 @@ Definition mon10_step (cf : lcfg) (s : m10) (e : lev) : m10 :=
             (if isf && N.eqb (a_kind s) 0 then kind_bit c else a_kind s) h (a_ended s) (a_stopcall s) (a_forcecall s)
             (a_shutcall s) (a_ustop s) (a_shut s) (a_calls s) (a_attempts s) (a_lastrec s) (a_v s)
   | EvCall k id =>
-      let live := a_open s in
-      let calls := (id, live) :: a_calls s in
+      (* the call finds a live run: a source is open and the pipeline is reported Running (during a recovery
+         restart the source of the new run opens before Running is written: a stop issued then still
+         resolves the dead run) *)
+      let live := a_open s && status_eqb cur Running in
+      let calls := (id, (live, status_eqb cur Recovering)) :: a_calls s in
       match k with
       | KStart =>
           mkM10 (a_open s) true (a_fatal s) (a_trans s) (a_kind s) (a_hist s) (a_ended s) (a_stopcall s)
@@ -225,7 +229,7 @@ Definition mon10_step (cf : lcfg) (s : m10) (e : lev) : m10 :=
                 (a_forcecall s) (a_shutcall s) (a_ustop s) (a_shut s) calls (a_attempts s) (a_lastrec s) (a_v s)
       end
   | EvRet k id e =>
-      let live := lookup_b id (a_calls s) in
+      let '(live, wasrec) := lookup_b id (a_calls s) in
       match k with
       | KStart =>
           if is_nil e
@@ -237,12 +241,15 @@ Definition mon10_step (cf : lcfg) (s : m10) (e : lev) : m10 :=
                      (a_forcecall s) (a_shutcall s) (a_ustop s) (a_shut s) (a_calls s) (a_attempts s) (a_lastrec s) (a_v s)
       | KStop | KStopWait =>
           if is_nil e
-          then mkM10 (a_open s) (a_ustart s) (a_fatal s) (a_trans s) (a_kind s) (a_hist s) (a_ended s) (a_stopcall s)
+          then (* a stop that resolved the dead run of a recovery, while the restarted run is already up *)
+               let s := a_flag (wasrec && a_open s && negb (a_ustart s)) R_userstop_dead s in
+               mkM10 (a_open s) (a_ustart s) (a_fatal s) (a_trans s) (a_kind s) (a_hist s) (a_ended s) (a_stopcall s)
                      (a_forcecall s) (a_shutcall s) (Some live) (a_shut s) (a_calls s) (a_attempts s) (a_lastrec s) (a_v s)
           else s
       | KForce =>
           if is_nil e
-          then mkM10 (a_open s) (a_ustart s) (if live then S (a_fatal s) else a_fatal s) (a_trans s)
+          then let s := a_flag (wasrec && a_open s && negb (a_ustart s)) R_userstop_dead s in
+               mkM10 (a_open s) (a_ustart s) (if live then S (a_fatal s) else a_fatal s) (a_trans s)
                      (if live && N.eqb (a_kind s) 0 then R_kind_force else a_kind s) (a_hist s) (a_ended s)
                      (a_stopcall s) (a_forcecall s) (a_shutcall s) (Some live) (a_shut s) (a_calls s) (a_attempts s)
                      (a_lastrec s) (a_v s)
@@ -290,7 +297,15 @@ Definition mon10_step (cf : lcfg) (s : m10) (e : lev) : m10 :=
   | EvNotify _ | EvWedge | EvPhase _ => s
   end.
 
-Definition mon10 (cf : lcfg) (log : list lev) : N := a_v (fold_left (mon10_step cf) log a0).
+(* every event together with the status stored before it *)
+Fixpoint annotate (cur : status) (log : list lev) : list (status * lev) :=
+  match log with
+  | [] => []
+  | e :: t => (cur, e) :: annotate (match e with EvSt _ x => x | _ => cur end) t
+  end.
+
+Definition mon10 (cf : lcfg) (log : list lev) : N :=
+  a_v (fold_left (fun s ce => mon10_step cf (fst ce) s (snd ce)) (annotate UserStopped log) a0).
 
 (* =====================================================================
    Mon_C11
